@@ -11,8 +11,9 @@ import os
 import vlib
 from vlib import log
 
-LET = {"Display": "", "Debug": "?", "LowerHex": "x"}
-ATTR = {"Display": "display", "Debug": "debug", "LowerHex": "lower_hex"}
+LET = {"Display": "", "Debug": "?", "LowerHex": "x", "UpperHex": "X", "Octal": "o", "Binary": "b", "LowerExp": "e", "UpperExp": "E"}
+ATTR = {"Display": "display", "Debug": "debug", "LowerHex": "lower_hex", "UpperHex": "upper_hex", "Octal": "octal", "Binary": "binary",
+        "LowerExp": "lower_exp", "UpperExp": "upper_exp"}
 VALS = {"t1": [255], "n1": [254], "t2": [255, 253], "unit": []}
 PRELUDE = r'''
 pub fn report(k: &str, outs: &[String]) {
@@ -66,7 +67,11 @@ def value(i, v):
 
 
 def show(n, D):
-    return format(n, "x") if D == "LowerHex" else str(n)
+    if D in ("LowerExp", "UpperExp"):
+        m = ("%e" % n).split("e")[0].rstrip("0").rstrip(".")      # 255 -> 2.55e2
+        e = len(str(n)) - 1
+        return f"{m}{'e' if D == 'LowerExp' else 'E'}{e}"
+    return {"LowerHex": format(n, "x"), "UpperHex": format(n, "X"), "Octal": format(n, "o"), "Binary": format(n, "b")}.get(D, str(n))
 
 
 def expected(tokens, i, v, D):
@@ -128,14 +133,17 @@ def run(chk, tier, seed, replay):
         cases = {k: v for k, v in cases.items() if k == want}
     chk.cov["exhaustive"] = not replay
     if tier == "quick" and not replay:
-        # every 1-variant enum + a seeded third of the 2-variant ones
-        cases = {k: c for k, c in cases.items() if len(c["vs"]) < 2 or vlib.seeded_pick(k, seed, 3) == 0}
+        # every 1-variant enum + a seeded third of the 2-variant ones (Display, Debug); the other seven traits share the
+        # code path of Display up to the placeholder letter: their 1-variant enums
+        cases = {k: c for k, c in cases.items() if len(c["vs"]) < 2 or (c["D"] in ("Display", "Debug") and vlib.seeded_pick(k, seed, 3) == 0)}
     elif not replay:
         cases = {k: c for k, c in cases.items() if len(c["vs"]) < 3 or vlib.seeded_pick(k, seed, 8) == 0}
-    acc = [(k, module(c, k)) for k, c in cases.items() if not c["reject"]]
+    acc_keys = vlib.cap_cases([k for k, c in cases.items() if not c["reject"]], seed, 8000 if tier == "quick" else 24000,
+                              keep=lambda k: len(cases[k]["vs"]) < 2)
+    acc = [(k, module(c, k)) for k, c in cases.items() if k in acc_keys]
     rej = [(k, "use super::*;\n" + decl(c)) for k, c in cases.items() if c["reject"]]
     log(f"[C07] {len(acc)} accepted enums, {len(rej)} rejected enums")
-    nsh = 4
+    nsh = 4 if tier == "quick" else 8
     shards = [acc[i::nsh] for i in range(nsh)]
     import concurrent.futures as cf
 
